@@ -23,6 +23,27 @@ CHECKS.update({
    note="Hash seeds and thread schedules are sampled, not controlled; proof bytes are not compared (parallel PoW grinding).", ref="DESIGN.md §3 C18", engine="E1+E5"),
 })
 
+CHECKS.update({
+ "C04": dict(cat="fault_enumeration", tech="property-based fault injection (proptest): forged execution traces proven with the real prover, native verifier verdict vs independent validity oracle",
+   text="1-2 generated fault operators (table cell, slot everywhere, slot+propagation, constant, recompose coefficient, input change as control) are applied to honest execution traces of random programs in 7 field configurations; the forged traces are proven in the release profile (no prover self-check) and verified natively. Accepted implies valid (one value per slot, exact constants, every ALU relation, recompose rows). ~5000 forged proofs per quick run; rejected forgeries are the negative control.",
+   note="Trusted: forge::trace_validity (written from the Op documentation); STARK soundness error negligible (100 FRI queries). Cells of packed Horner rows that never reach the committed matrix are normalised. Known classes (constant values in the main trace, standard recompose coefficients unbound) are excluded by construction and replayed.", ref="DESIGN.md §3 C04", engine="E1+E2"),
+ "C05": dict(cat="exploration", tech="model-based property testing (proptest): random challenger op histories, native DuplexChallenger as the model",
+   text="Random histories (observe base/ext/slices, sample base/ext/bits, PoW valid/invalid, clear; 0-60 ops, thorough 300) over 14 challenger configurations x recompose table on/off are run against the native challenger and the in-circuit challenger; every sampled target must equal the native sample and run() must succeed iff every PoW check is natively valid. All sequences of length <= 3 over a 10-symbol alphabet are enumerated.",
+   note="Trusted: p3-challenger DuplexChallenger and the native permutations.", ref="DESIGN.md §3 C05", engine="E4"),
+ "C07": dict(cat="exploration", tech="differential property testing (proptest) with JSON-path fault injection on FRI proofs: native Pcs::verify vs in-circuit verifier",
+   text="Generated FRI parameter sets and commitment shapes (mixed heights/arity schedules, shared and distinct opening points) are opened honestly with the native PCS; each of 1-10 single-leaf alterations (and bad PoW witnesses) is judged by native Pcs::verify and by the circuit (full transcript+MMCS variant, and verify_fri_circuit with fixed challenges); verdicts must agree in both directions.",
+   note="Configuration: BabyBear quartic, Poseidon2-w16, cap height 0. Trusted: p3-fri native verifier.", ref="DESIGN.md §3 C07", engine="E3+E4"),
+ "C08": dict(cat="exploration", tech="differential property testing (proptest) with single-fault injection on Merkle openings: native MerkleTreeMmcs::verify_batch vs in-circuit gadgets",
+   text="Batches of 1-6 matrices (heights 1-64 incl. non powers of two, widths 1-20, cap heights, arity 2/4, hiding, base/extension leaves, 6 configurations) are committed and opened natively; at most one fault (opened value, sibling word, index bit, cap word, salt) is applied and the native verdict compared with the circuit's run verdict, both directions. Small geometries are enumerated completely (every index).",
+   note="Trusted: p3-merkle-tree. Declared-dimension lies are outside the quantifier and only explored on request (observations/c08_dim_lies.json).", ref="DESIGN.md §3 C08", engine="E4"),
+ "C12": dict(cat="fault_enumeration", tech="property-based fault injection (proptest): alternative hint outputs satisfying the recomposition identity, proven and verified",
+   text="For decompose_to_bits (full/shortened widths) and decompose_ext_to_base_coeffs (ALU chain, recompose table, recompose/coeff table) over 7 field configurations the hint outputs are replaced by bits of limb+p, non-boolean bits with the same weighted sum, moved coefficient mass (non-base coefficients), and identity-breaking controls; everything downstream is re-derived, proven and verified. Accepted implies canonical.",
+   note="The prover controls all hint outputs and the consumer's public result. Known classes (bits of x+p; non-base coefficients with the ALU chain / standard recompose table) are listed findings.", ref="DESIGN.md §3 C12", engine="E2"),
+ "C20": dict(cat="exploration", tech="differential property testing (proptest): each verifier gadget vs its native Plonky3 counterpart and an explicit formula",
+   text="Selectors/vanishing polynomial, quotient recomposition (1-16 chunks, ZK doubling), periodic columns, polynomial evaluation, exponentiation by constants, final query point and per-height evaluation points are built with public inputs, run, and compared with the native computation over 7 configurations, with branch-boundary parameters histogrammed and small shapes enumerated over all indices. 1.7M evaluations per quick run.",
+   note="Trusted: p3-commit PolynomialSpace, p3-field. A gadget that does not terminate yields a watchdog exit (inconclusive), not a verdict.", ref="DESIGN.md §3 C20", engine="E4"),
+})
+
 NOT_YET = {}
 
 def main():
